@@ -1,5 +1,5 @@
 """Case generators (DESIGN §4.4): structured, mostly valid, type-directed; one PRNG per run."""
-import random
+import random, re
 from .sexp import show
 
 VALS = [0, 1, 2, 3]
@@ -539,7 +539,12 @@ def fam_unsub_positions(g, prefix, n_pipes):
         p = g.pipe_typed(g.r.randint(0, 2))
         for idx in range(0, 4):
             out.append(case("%s-%d" % (prefix, i), [["sub", p, ["react", [str(idx), "unsub"]]], ["unsub", "0"]])); i += 1
-    return out
+    # the subscription is also ended by dropping a utils::Using guard around it: at the end of a scope
+    # (`using`) and while a panic unwinds through the scope (`unwind`)
+    def via(c, k):
+        how = ("", " using", " unwind")[k % 3]
+        return re.sub(r"\(unsub (\d+)\)(?!\))", lambda m: "(unsub %s%s)" % (m.group(1), how), c) if how else c
+    return [via(c, k) for k, c in enumerate(out)]
 
 def fam_reentrant(g, prefix, n_random):
     """callbacks that re-enter the library: emit into / complete the subject they are called from,
@@ -550,7 +555,7 @@ def fam_reentrant(g, prefix, n_random):
     for kind in ("plain", "behavior", "replay", "async"):
         init = ["0"] if kind == "behavior" else []
         for name in sorted(ops) + ["none"]:
-            for act in (["hnext", "a", "2"], ["hcomplete", "a"], "unsub", ["herror", "a", "6"]):
+            for act in (["hnext", "a", "2"], ["hcomplete", "a"], "unsub", ["herror", "a", "6"], ["sub", ["ref", "a"]]):
                 for idx in ("0", "1"):
                     g.tag = 0
                     p = ops[name](["ref", "a"]) if name != "none" else ["ref", "a"]
@@ -784,6 +789,31 @@ def fam_connectables(g, prefix, n_random, maxlen=10):
                 elif hot:
                     steps.append(g.r.choice([["hnext", "a", g.val()], ["hnext", "a", g.val()], ["hnext", "a", g.val()], ["hcomplete", "a"], ["herror", "a", "6"]]))
             out.append(case("%s-%s-%d" % (prefix, kind, i), steps)); i += 1
+    return out
+
+def fam_conn_reentrant(g, prefix, n_random):
+    """connectables whose subscribers arrive / leave from INSIDE a callback (while a synchronous source is
+    still emitting, or while a hot source's event is being broadcast)"""
+    out = []
+    i = 0
+    for kind in ("publish", "ref_count", "replay"):
+        for evs in ([n_(1), n_(2), n_(3)], [n_(1), n_(2), n_(3), C_], [n_(1), n_(2), e_(5)]):
+            for first in (lambda x: x, lambda x: ["take", "1", x], lambda x: ["take", "2", x], lambda x: ["map", "inc", x]):
+                for idx in ("0", "1", "2"):
+                    for act in (["sub", ["ref", "x"]], ["sub", ["take", "1", ["ref", "x"]]], "unsub"):
+                        for hot in (False, True):
+                            g.tag = 0
+                            if hot:
+                                pre = [["subject", "a", "plain"], ["conn", "x", kind, ["ref", "a"]]]
+                                drive = [(["hnext", "a", e[1]] if e[0] == "n" else ["herror", "a", e[1]]) if isinstance(e, list) else ["hcomplete", "a"] for e in evs]
+                            else:
+                                pre = [["conn", "x", kind, g.cold(evs)]]
+                                drive = []
+                            steps = pre + [["sub", first(["ref", "x"]), ["react", [idx, act]]]]
+                            if kind == "publish":
+                                steps.append(["connect", "x"])
+                            steps += drive + [["sub", ["ref", "x"], NOREACT]]
+                            out.append(case("%s-%d" % (prefix, i), steps)); i += 1
     return out
 
 def fam_errors(g, prefix, n_random):
